@@ -168,6 +168,12 @@ int cif_loop_get_category(cif_loop_tp *loop, UChar **category) {
     }
 }
 
+/* prepares the statement used by cif_loop_set_category(); a function of its own because PREPARE_STMT returns on failure */
+static int prepare_set_category_stmt(cif_tp *cif) {
+    PREPARE_STMT(cif, set_loop_category, SET_CATEGORY_SQL);
+    return CIF_OK;
+}
+
 int cif_loop_set_category(cif_loop_tp *loop, const UChar *category) {
     cif_container_tp *container = loop->container;
     UChar *category_temp;
@@ -209,17 +215,13 @@ int cif_loop_set_category(cif_loop_tp *loop, const UChar *category) {
     } else {
         cif_tp *cif = container->cif;
 
-        if (cif == NULL) {
+        if ((cif == NULL) || (prepare_set_category_stmt(cif) != CIF_OK)) {
+            /* the copy of the category made above is not needed after all */
+            free(category_temp);
             return CIF_ERROR;
         } else {
             FAILURE_HANDLING;
             STEP_HANDLING;
-
-            /*
-             * Create any needed prepared statements, or prepare the existing one(s)
-             * for re-use, exiting this function with an error on failure.
-             */
-            PREPARE_STMT(cif, set_loop_category, SET_CATEGORY_SQL);
 
             /* set the category */
             if ((sqlite3_bind_int64(cif->set_loop_category_stmt, 2, container->id) == SQLITE_OK)
@@ -253,7 +255,7 @@ int cif_loop_set_category(cif_loop_tp *loop, const UChar *category) {
             }
 
             /* failed -- clean up */
-            DROP_STMT(cif, get_loop_names);
+            DROP_STMT(cif, set_loop_category);
             free(category_temp);
 
             FAILURE_TERMINUS;
